@@ -258,7 +258,7 @@ class PDHG(Optimizer):
             ratio: Desired ratio between return :math:`\tau` and
                :math:`\sigma` values (:math:`\sigma = \mathrm{ratio}
                \tau`).
-            factor: Safety factor with which to multiply :math:`\| C
+            factor: Safety factor by which to divide :math:`\| C
                \|_2^{-2}` to ensure strict inequality compliance. If
                ``None``, the value is set to 1.0.
             maxiter: Maximum number of power iterations to use in operator
@@ -280,6 +280,6 @@ class PDHG(Optimizer):
         else:
             J = jacobian(C, x)
         Cnrm = operator_norm(J, maxiter=maxiter, key=key)
-        tau = snp.sqrt(factor / ratio) / Cnrm
+        tau = 1.0 / (snp.sqrt(factor * ratio) * Cnrm)
         sigma = ratio * tau
         return (tau, sigma)
